@@ -1055,6 +1055,27 @@ def cleanup_copies(fn, only=None):
                             del blk[i]
                             changed = True
                             break
+                # (3'') backward, b bound several times: first by a plain assignment earlier in this block, every other
+                #       occurrence of b between there and the copy (arms of ifs included), a not mentioned in between
+                if len(stores_b) > 1:
+                    p_idx = None
+                    for k in range(i):
+                        sk = blk[k]
+                        if isinstance(sk, ast.Assign) and len(sk.targets) == 1 and isinstance(sk.targets[0], ast.Name) \
+                                and sk.targets[0].id == b:
+                            p_idx = k
+                            break
+                    if p_idx is not None and not any(isinstance(s_, (ast.For, ast.While)) and _occ(s_, b, (ast.Store, ast.Del))
+                                                     for s_ in blk[p_idx:i]):
+                        in_range = sum(len(_occ(s_, b)) for s_ in blk[p_idx:i + 1])
+                        a_between = sum(len(_occ(s_, a)) for s_ in blk[p_idx:i])
+                        if in_range == len(_occ(fn, b)) and a_between == 0 and not _in_loop(fn, st):
+                            for s_ in blk[p_idx:i]:
+                                for n in _occ(s_, b):
+                                    n.id = a
+                            del blk[i]
+                            changed = True
+                            break
                 # (3') backward through ifs whose other arm leaves: b bound once in an enclosing block, dead after the copy
                 if len(stores_b) == 1 and _backward_nested(fn, blk, i, a, b, stores_b[0]):
                     changed = True
